@@ -24,6 +24,8 @@ pub struct IndexCatalog {
 
 impl IndexCatalog {
     pub fn open_or_create(pager: &mut Pager) -> Result<Self> {
+        #[cfg(luqing_studio_nervusdb_verif)]
+        let _verif_owner = nervusdb_api::verif_hooks::owner_scope("catalog");
         let page = match pager.index_catalog_root() {
             Some(p) => p,
             None => {
@@ -55,6 +57,8 @@ impl IndexCatalog {
     }
 
     pub fn get_or_create(&mut self, pager: &mut Pager, name: &str) -> Result<IndexDef> {
+        #[cfg(luqing_studio_nervusdb_verif)]
+        let _verif_owner = nervusdb_api::verif_hooks::owner_scope("catalog");
         if let Some(def) = self.entries.get(name) {
             return Ok(def.clone());
         }
@@ -79,6 +83,8 @@ impl IndexCatalog {
     }
 
     pub fn flush(&self, pager: &mut Pager) -> Result<()> {
+        #[cfg(luqing_studio_nervusdb_verif)]
+        let _verif_owner = nervusdb_api::verif_hooks::owner_scope("catalog");
         let mut buf = [0u8; PAGE_SIZE];
         encode_catalog_page(&self.entries, &mut buf)?;
         pager.write_page(self.page, &buf)?;
